@@ -88,8 +88,87 @@ fn c08_pair(ctx: &mut Ctx, pa: &mut BlockHashPositionArray, a: &[u8], b: &[u8]) 
     })
 }
 
+/// One step of a history on ONE comparison target: load `m` (init_from, or a new object by
+/// From), then observe the string functions of target.block_hash_1()/block_hash_2() against
+/// the DP / naive oracles on the CURRENT hash.
+fn target_history_step(ctx: &mut Ctx, target: &mut FuzzyHashCompareTarget, m: &Model, history: &mut Vec<String>) -> R {
+    ctx.input();
+    let via_from = ctx.rng.chance(1, 5);
+    history.push(format!("{}({})", if via_from { "From" } else { "init_from" }, m.text()));
+    if history.len() > 6 {
+        history.remove(0);
+    }
+    let long = m.bh2.len() > 32 || ctx.rng.chance(1, 2);
+    let mut xs: Vec<Vec<u8>> = vec![m.bh1.clone(), m.bh2.clone(), vec![], gen::mutate_bh(&mut ctx.rng, &m.bh1, 64), gen::mutate_bh(&mut ctx.rng, &m.bh2, 64)];
+    let l = gen::bh_len(&mut ctx.rng, 64);
+    xs.push(gen::bh_raw(&mut ctx.rng, l));
+    let input = || format!("history of one target object (latest last): {}\ncurrent hash {}", history.join(" ; "), m.text());
+    let obs = ctx.nopanic("reused-target-string-functions-never-panic", || {
+        if long {
+            let h = LongFuzzyHash::of(m);
+            if via_from { *target = FuzzyHashCompareTarget::from(&h) } else { target.init_from(&h) }
+        } else {
+            let h = FuzzyHash::of(m);
+            if via_from { *target = FuzzyHashCompareTarget::from(h) } else { target.init_from(&h) }
+        }
+        let (b1, b2) = (target.block_hash_1(), target.block_hash_2());
+        let head = (b1.is_valid(), b2.is_valid(), b1.len() as usize, b2.len() as usize, target.is_valid(), target.log_block_size());
+        let mut rows = Vec::new();
+        for x in &xs {
+            rows.push((b1.edit_distance(x), b2.edit_distance(x), b1.has_common_substring(x), b2.has_common_substring(x), b1.is_equiv(x), b2.is_equiv(x)));
+        }
+        (head, rows)
+    }, input)?;
+    let head_ok = obs.0 == (true, true, m.bh1.len(), m.bh2.len(), true, m.log_bs);
+    ctx.check("reused-target-position-arrays", head_ok, || {
+        format!("{}\nreal code: (block_hash_1().is_valid, block_hash_2().is_valid, len 1, len 2, target.is_valid, log_block_size) = {:?}\noracle: (true, true, {}, {}, true, {})", input(), obs.0, m.bh1.len(), m.bh2.len(), m.log_bs)
+    })?;
+    for (x, row) in xs.iter().zip(&obs.1) {
+        let want = (oracle::edit_distance(&m.bh1, x), oracle::edit_distance(&m.bh2, x), oracle::has7(&m.bh1, x), oracle::has7(&m.bh2, x), m.bh1 == *x, m.bh2 == *x);
+        ctx.check("reused-target-edit-distance-and-substring", *row == want, || {
+            format!(
+                "{}\nother string {}\nreal code: block_hash_1()/block_hash_2() (edit_distance 1, edit_distance 2, has_common_substring 1, 2, is_equiv 1, 2) = {:?}\noracle (LCS DP / naive 7-gram search on the current hash): {:?}",
+                input(), sym(x), row, want
+            )
+        })?;
+    }
+    Ok(())
+}
+
+/// Next hash of a target history: empty block hash 1 with non-empty block hash 2, empty/empty,
+/// long/long, then something different.
+fn history_model(ctx: &mut Ctx, step: u32) -> Model {
+    match step % 6 {
+        0 => {
+            // like the parsed text "3::ABCDEFGHIJKL"
+            let off = ctx.rng.below(50) as u8;
+            Model { log_bs: gen::log_bs(&mut ctx.rng), bh1: vec![], bh2: (0..12).map(|i| i + off).collect() }
+        }
+        1 => gen::model_norm(&mut ctx.rng, 64),
+        2 => Model { log_bs: 0, bh1: vec![], bh2: vec![] },
+        3 => gen::model_rich(&mut ctx.rng, 64).normalized(),
+        4 => {
+            let mut m = gen::model_rich(&mut ctx.rng, 32);
+            m.bh1 = gen::bh_norm(&mut ctx.rng, 64);
+            while m.bh1.len() < 60 {
+                m.bh1.push((m.bh1.len() % 61) as u8);
+            }
+            m.bh2 = m.bh1[..32].to_vec();
+            m.normalized()
+        }
+        _ => gen::model_second(&mut ctx.rng, 32).normalized(),
+    }
+}
+
 pub fn c08(ctx: &mut Ctx) -> R {
     let mut pa = BlockHashPositionArray::new();
+    // histories on one reused comparison target first (cheap), and again between the random pairs
+    let mut target = FuzzyHashCompareTarget::new();
+    let mut history: Vec<String> = Vec::new();
+    for step in 0..24u32 {
+        let m = history_model(ctx, step);
+        target_history_step(ctx, &mut target, &m, &mut history)?;
+    }
     // exhaustive over small alphabets
     for (k, hi) in [(2u8, 6usize), (3, 4)] {
         let all = all_strings(k, 0, hi);
@@ -102,7 +181,14 @@ pub fn c08(ctx: &mut Ctx) -> R {
             }
         }
     }
+    let mut step = 0u32;
     while ctx.alive() {
+        step += 1;
+        if step % 8 == 0 {
+            let which = ctx.rng.below(6) as u32;
+            let m = history_model(ctx, which);
+            target_history_step(ctx, &mut target, &m, &mut history)?;
+        }
         let (a, b) = pair(ctx);
         c08_pair(ctx, &mut pa, &a, &b)?;
         // carry chains: long runs at length 63/64
@@ -146,6 +232,19 @@ fn c09_pair(ctx: &mut Ctx, pa: &mut BlockHashPositionArray, a: &[u8], b: &[u8]) 
 
 pub fn c09(ctx: &mut Ctx) -> R {
     let mut pa = BlockHashPositionArray::new();
+    // the pre-filter as the comparison target applies it: asymmetric shapes (the block hash that
+    // is not compared is shorter than 7), and the string functions of a reused target
+    let mut target = FuzzyHashCompareTarget::new();
+    let mut history: Vec<String> = Vec::new();
+    for step in 0..200u32 {
+        let cap2 = if step % 2 == 0 { 32 } else { 64 };
+        let (a, b) = gen::asym_pair(&mut ctx.rng, cap2);
+        c10_pair(ctx, &a, &b)?;
+        if step % 8 == 0 {
+            let m = history_model(ctx, step / 8);
+            target_history_step(ctx, &mut target, &m, &mut history)?;
+        }
+    }
     // a shared 7-gram planted at every pair of offsets, and near misses of length 6
     for (la, lb) in [(7usize, 7usize), (8, 13), (20, 21), (64, 64), (64, 9), (33, 64)] {
         for oa in 0..=la - 7 {
@@ -182,6 +281,9 @@ pub fn c09(ctx: &mut Ctx) -> R {
     while ctx.alive() {
         let (a, b) = pair(ctx);
         c09_pair(ctx, &mut pa, &a, &b)?;
+        let cap2 = if ctx.rng.chance(1, 2) { 32 } else { 64 };
+        let (a, b) = gen::asym_pair(&mut ctx.rng, cap2);
+        c10_pair(ctx, &a, &b)?;
         // repeated / overlapping occurrences over a low-entropy alphabet
         let la = ctx.rng.range(7, 64);
         let lb = ctx.rng.range(7, 64);
@@ -532,6 +634,8 @@ pub fn c10(ctx: &mut Ctx) -> R {
         }
         let b = if ctx.rng.chance(1, 8) { gen::model_norm(&mut ctx.rng, cap2) } else { gen::related_norm(&mut ctx.rng, &a, cap2) };
         c10_pair(ctx, &a, &b)?;
+        let (x, y) = gen::asym_pair(&mut ctx.rng, cap2);
+        c10_pair(ctx, &x, &y)?;
         // windows
         let input = || format!("hash {}", a.text());
         if cap2 == 32 {
